@@ -89,3 +89,15 @@ CLAIMED["C15"] = ("edge-cut completeness rules + provenance structure of the sta
   "SQL statement with its Go arguments and Scan destinations against the folded schema. Right level: 'tells the truth' needs these structural "
   "facts for every query; equality with a reference model over histories is not claimed.",
   TRUST, "DESIGN.md §3 C15")
+CLAIMED["C10"] = ("provenance wiring checks around the crypto primitives + forall-loop cut + SQL agreement + monotone census",
+  "The algebraic identities and tamper-evidence quantify over group elements and are not decidable statically (pinned by vectors); this check "
+  "decides the wiring no test executes: signer Sign/GenerateDLEQ argument identity and emitted fields, storage and restore of (c_, e, s), the "
+  "wallet's per-index DLEQ verification / unblinding / stored r, proof-only-on-verified-edge, the re-blinding verifier's arguments, the list "
+  "verifier's forall, full-point comparison in crypto.Verify and that hash_to_curve consumes the whole secret.",
+  TRUST + " The algebra itself is out of reach of this technique family.", "DESIGN.md §3 C10")
+CLAIMED["C11"] = ("monotone census of calls, constant-folded arguments and data flow in the derivation functions",
+  "Bit-for-bit agreement with the specifications for every input is numerical and not decidable statically; decided is that each derivation "
+  "contains the specified constructs: domain separator + whole message, little-endian 4-byte counter, 0x02 prefix, 2^16 bound; sorted-by-amount "
+  "(total order) compressed keys of the whole map, SHA-256, 00 + 14 hex; NUT-13 indices 129372'/0'/(BE uint64 of id mod 2^31-1)'/counter'/{0,1} "
+  "with standard derivation; mint path 0'/0'/idx'; wallet P2PK path. Adding code never fires it; replacing a construct does.",
+  TRUST + " Numeric equality with an independent implementation is out of reach of this technique family.", "DESIGN.md §3 C11")
